@@ -448,7 +448,9 @@ def one_case(rep, drv, contents, focus, ci, seed, case_dir, src_root, dst_root, 
     # (an update candidate of the block-delta route).  The entry-level model does not know working files; what the run does to <x>.sy.tmp
     # and to x in such a case (removed, clobbered, a failed operation when both are transferred at once) is that finding, reported by the
     # C05 / C06 checks under its signatures — here it is not a NEW disagreement of the model.  Everything else in the case is still compared.
-    collide = {r for r in set(pre_src) | set(pre_dst) if r.endswith(".sy.tmp") and (pre_src.get(r[:-7]) or {}).get("k") == "f" and (pre_dst.get(r[:-7]) or {}).get("k") == "f"}
+    # (under --links follow a source symlink is transferred as the regular file it points to)
+    src_file_kinds = ("f", "l") if cfg.get("links", "p") not in ("p", "s") else ("f",)
+    collide = {r for r in set(pre_src) | set(pre_dst) if r.endswith(".sy.tmp") and (pre_src.get(r[:-7]) or {}).get("k") in src_file_kinds and (pre_dst.get(r[:-7]) or {}).get("k") == "f"}
     collide |= {r[:-7] for r in collide}
     if collide and dis:
         kept = []
@@ -851,7 +853,7 @@ def oracles(rep, focus, desc, rc, ev, bad, summ, real_events, real_errors, pre_s
                 if rel in src_all or any(rel.startswith(s + "/") for s in src_all if pre_src[s]["k"] != "d"): continue
                 if tree_fingerprint({rel: p}) != tree_fingerprint({rel: post_dst[rel]} if rel in post_dst else {}):
                     base = rel[:-7] if rel.endswith(".sy.tmp") else None
-                    if base is not None and base in pre_src and pre_src[base]["k"] == "f" and base in pre_dst:
+                    if base is not None and base in pre_src and (pre_src[base]["k"] == "f" or (pre_src[base]["k"] == "l" and links not in ("p", "s"))) and base in pre_dst:
                         # the recorded residual collision of a deterministic working-file name (C05/user-file-named-like-temp),
                         # seen through C06's first clause: its own signature, so that any OTHER touched extra is still a violation
                         rep.oracle_fail("C06/extra-named-like-working-file-clobbered", f"destination extra {rel} is the working-file name of {base}, which was updated: removed / replaced without --delete", desc)
@@ -889,7 +891,8 @@ def oracles(rep, focus, desc, rc, ev, bad, summ, real_events, real_errors, pre_s
         for rel in set(fp0) | set(fp1):
             if fp0.get(rel) != fp1.get(rel) and rel not in evp and not any(rel.startswith(e + "/") for e in evp):
                 base = rel[:-7] if rel.endswith(".sy.tmp") else None
-                if base is not None and rel not in post_dst and (pre_src.get(base) or {}).get("k") == "f" and (pre_dst.get(base) or {}).get("k") == "f" and fp0.get(base) != fp1.get(base):
+                if base is not None and rel not in post_dst and ((pre_src.get(base) or {}).get("k") == "f" or ((pre_src.get(base) or {}).get("k") == "l" and links not in ("p", "s"))) \
+                   and (pre_dst.get(base) or {}).get("k") == "f" and fp0.get(base) != fp1.get(base):
                     # the recorded residual collision (C05/user-file-named-like-temp) seen through C19: the entry bearing the working-file name of
                     # the updated `base` disappears and no event names it — its own signature, so that any OTHER silent change stays a violation
                     rep.oracle_fail("C19/change-without-event/working-file-name-in-use", f"{rel} (the working-file name of the updated {base}) was removed and no event mentions it", desc)
